@@ -11,6 +11,8 @@ import PMC.Model.CTLS
 import PMC.Model.BDD
 import PMC.Model.Parser
 import PMC.Generated.Grammar
+import PMC.Model.Classes
+import PMC.Generated.ClassTable
 open PMC
 
 /-! ### decoding -/
@@ -253,6 +255,32 @@ def tablesOf : Logic → Parser.Tables
     answer `OK <S-expression>` or `ERR UnexpectedToken <pos>` / `ERR UnexpectedCharacters <pos>` -/
 def decText (s : String) : List Char := (natList s).map Char.ofNat
 
+/-! ### C08: construction, casts, guards (all with the table extracted from the live code)
+
+  `CONSTRUCT|<M>|<sexpr>`                     build the tree with the classes of module M
+  `CAST|<Mfrom>|<Mto>|<sexpr>`                `obj.cast_to(Mto)` for the object built in Mfrom
+  `MIXED|<M>|<ClassName>|<M1> <sexpr1> ; <M2> <sexpr2> ; …`
+                                              `M.ClassName(obj1, obj2, …)`, object i built in module Mi
+                                              (`;`-separated operands, each "module, blank, S-expression")
+  `GUARD|<CTL|LTL|CTLS>|<Mobj>|<sexpr>|<1|0>` type guards of `<checker>.modelcheck(K, obj)`, obj built in Mobj;
+                                              the flag says whether the first argument is a Kripke structure
+  answers: `OK` or `ERR <exception name>` -/
+
+def encUnit : Except Err Unit → String
+  | .ok () => "OK"
+  | .error e => "ERR " ++ e.name
+
+def decMixedOperand (s : String) : Option (Logic × Fm) :=
+  match words s with
+  | m :: rest =>
+    match decLogic m, parseFm rest with
+    | some m, some (f, []) => some (m, f)
+    | _, _ => none
+  | [] => none
+
+def decMixedOperands (s : String) : Option (List (Logic × Fm)) :=
+  ((s.splitOn ";").filter (fun t => !(words t).isEmpty)).mapM decMixedOperand
+
 /-! ### dispatch -/
 
 def step (line : String) : String :=
@@ -317,6 +345,28 @@ def step (line : String) : String :=
       (match decLogic m with
        | some m => encExcept encFm (Parser.parse (tablesOf m) (decText text))
        | none => "bad-op")
+  | ["CONSTRUCT", m, f] =>
+      (match decLogic m, decFm f with
+       | some m, some f => encUnit (Classes.construct Classes.generatedTable m f)
+       | _, _ => "bad-op")
+  | ["CAST", m1, m2, f] =>
+      (match decLogic m1, decLogic m2, decFm f with
+       | some m1, some m2, some f => encUnit (Classes.castTo Classes.generatedTable m1 m2 f)
+       | _, _, _ => "bad-op")
+  | ["MIXED", m, op, kids] =>
+      (match decLogic m, decMixedOperands kids with
+       | some m, some kids => encUnit (Classes.constructMixed Classes.generatedTable m op.trimAscii.toString kids)
+       | _, _ => "bad-op")
+  | ["GUARD", chk, m, f, k] =>
+      (match decLogic m, decFm f with
+       | some m, some f =>
+         let k := k.trimAscii.toString == "1"
+         (match chk with
+          | "CTL" => encUnit (Classes.guardCTL Classes.generatedTable m f k)
+          | "LTL" => encUnit (Classes.guardLTL Classes.generatedTable m f k)
+          | "CTLS" => encUnit (Classes.guardCTLS Classes.generatedTable m f k)
+          | _ => "bad-op")
+       | _, _ => "bad-op")
   | ["BDD", names, ops] =>
       " ; ".intercalate (bddHistory (words names).toArray ((ops.splitOn ";").map (·.trimAscii.toString)))
   | _ => "bad-op"
